@@ -139,6 +139,7 @@ def rule_impl(job):
         impl.reset_library_state()
         (enable_caching if caching else disable_caching)()
         key = ('on' if caching else 'off') + (('/' + ambient) if ambient else '')
+        held = []
         try:
             b = impl.Built(case)
 
@@ -209,7 +210,8 @@ def rule_impl(job):
                 except Exception as e:
                     res['tree'] = f'(?tree {type(e).__name__}: {e})'
             outs = []
-            ctx = {None: contextlib.nullcontext, 'query': symbolic_mode, 'rule': rule_mode}[ambient]
+            ctx = {None: contextlib.nullcontext, 'query': symbolic_mode, 'rule': rule_mode,
+                   'query+q': lambda: symbolic_mode(q), 'rule+q': lambda: rule_mode(q)}[ambient]
             n_before = sum(1 for _ in _registered(Variable, Vw))
             if case.get('pre_take') is not None:
                 # an abandoned evaluation of the same rule first (must not change what follows)
@@ -220,7 +222,10 @@ def rule_impl(job):
                             next(it)
                     except StopIteration:
                         pass
-                    it.close()
+                    if impl.suspended(case):
+                        held.append(it)          # left suspended (not closed) while the evaluations that follow run
+                    else:
+                        it.close()
             built = []
 
             def render(v):
@@ -243,6 +248,8 @@ def rule_impl(job):
         except Exception as e:
             res['impl'][key] = {'exc': f'{type(e).__name__}: {str(e)[:200]}'}
         finally:
+            for it_ in held:
+                it_.close()
             enable_caching()
             impl.reset_library_state()
     return res
@@ -617,7 +624,7 @@ def c11(report, rng, tier, findings):
             report.count('head_class_whose_instances_are_falsy')
         c['direct_head'] = form(c) == 'direct'
         c['tag_last'] = int(c['id'][1:]) % 3 != 0
-    results = pmap(rule_impl, [(c, {'caching': (False, True), 'evals': 2, 'ambients': (None, 'query', 'rule')})
+    results = pmap(rule_impl, [(c, {'caching': (False, True), 'evals': 2, 'ambients': (None, 'query', 'rule', 'query+q', 'rule+q')})
                                for c in cases])
     lines = run_driver([rule_sexp(c) for c in cases])
     judge_rules(report, cases, results, lines, findings, 'C11', nontriv, check_tree=False)
